@@ -26,6 +26,8 @@ pub mod config;
 pub mod contacts;
 pub mod error;
 mod initial_peers;
+#[cfg(maidsafe_safe_network_verif)]
+pub mod verif;
 
 use ant_protocol::version::{get_network_id, get_truncate_version_str};
 use libp2p::{multiaddr::Protocol, Multiaddr, PeerId};
